@@ -112,6 +112,7 @@ def trace_part(ctx, tier, rng, keys, pool):
     from .. import c11_scen as sc
     per = 4 if tier == "quick" else 150
     deltas = (2, 8, 16) if tier == "quick" else (1, 2, 4, 8, 12, 16, 22, 30)
+    tdeltas = (0.05, 0.9) if tier == "quick" else (0.01, 0.05, 0.3, 0.6, 0.9, 1.3, 1.8, 2.5)
     times = 1 if tier == "quick" else 8
     batches = []
     all_traces = []
@@ -127,6 +128,9 @@ def trace_part(ctx, tier, rng, keys, pool):
             # unload while an API coroutine of T (DHT store/find, store_peer, ...) is in flight
             ks = sorted(set(ks) | {m + d for m in ref["marks"] for d in deltas if m + d <= n})
             ts = [round(rng.uniform(0.0, 30.0), 3) for _ in range(times)]
+            # ... and at virtual times after such a call (a crawl that waits for slow / silent nodes spans seconds but
+            # only a few events)
+            ts += sorted({round(mt + d, 3) for mt in ref["mark_times"] for d in tdeltas})
             traces = [ref] + record(scen, wiring, ks + ts, ctx.seed, keys)
             plan.append({"class": scen.name, "wiring": wiring, "script_events": n, "unload_points": len(traces),
                          "events": sum(len(t["events"]) for t in traces)})
